@@ -335,12 +335,15 @@ def run(tier, seed):
                 acc_ = set()
                 leaves(cmpd[0], acc_)
                 forks = [c_ for c_ in forks if c_.id in acc_]
+                # any further quantity read from the envelope (an extension this tree does not have) is taken as 0: the clause then speaks of
+                # the envelopes in which it is absent, which are the ones the property describes
+                extra0 = {i_: 0 for i_ in acc_ if i_ not in {c_.id for c_ in forks}}
             okr, detail_r = bool(cmpd) and len(forks) == 2, None
             if okr:
                 samples = [(a_, b_) for a_ in (0, 1, 5, 127, 128, 129, 255, 256, 300, 1024, 70000) for b_ in (0, 1, 127, 128, 200)]
                 for e_ in cmpd[:2]:
                     for a_, b_ in samples:
-                        got = eval_int(ih, e_, {forks[0].id: a_, forks[1].id: b_})
+                        got = eval_int(ih, e_, {**extra0, forks[0].id: a_, forks[1].id: b_})
                         want = ((a_ + b_ + 128 + 127) // 128) * 128
                         if got is None or (got & 0xFFFFFFFF) != (want & 0xFFFFFFFF):
                             okr, detail_r = False, "for fork lengths %d + %d the member length is compared with %s, the envelope occupies %d" % (a_, b_, got, want)
